@@ -1,4 +1,7 @@
-"""C06 — detect_bursts_cycles / compute_features(burst_method='cycles') vs Model/Labels.v."""
+"""C06 — detect_bursts_cycles / compute_features(burst_method='cycles') vs Model/Labels.v.
+Every successful call is followed by a SECOND call of detect_bursts_cycles on the table that was returned (it carries
+an is_burst column by then) with one threshold or min_n_cycles raised: "on a fixed table raising ... only removes
+labels" is checked on the implementation, not only proved on the model."""
 import math
 import numpy as np
 from harness import coqio
@@ -8,10 +11,9 @@ PROP = 'C06'
 PROPS_FILE = 'Props/C06.v'
 from harness import pipeline
 COQ_STREAMS = {
-    'table': ('From Coq Require Import List ZArith Floats.PrimFloat. Import ListNotations.\n'
-              'From ByC Require Import Base.Result Harness.Compare Model.Labels.\nOpen Scope float_scope.',
-              'bad_labels_cycles',
-              ('(float * float * float * float) * Z * list (float * float * float * float)', 'result (list bool)'), 300),
+    'table': ('From Coq Require Import List ZArith NArith Floats.PrimFloat. Import ListNotations.\n'
+              'From ByC Require Import Base.Result Harness.Compare Model.Labels Model.TableRuns.\nOpen Scope float_scope.',
+              'bad_labels_cycles2', ('lc2_in', 'lab_obs * option lab_obs'), 300),
     'pipe': (pipeline.COQ_HEADER, pipeline.COQ_RUNNER, pipeline.COQ_TYPES, pipeline.SHARD),
 }
 TRUST = pipeline.TRUST
@@ -23,8 +25,17 @@ def stream_of(c):
 RULE = ('synthetic cycle tables whose four feature columns take values on, one ulp below and one ulp above the '
         'thresholds (plus 0, 1, NaN, inf), default and non-default row labels, threshold vectors from a grid in [0,1]^4 and out-of-range/NaN values, '
         'min_n_cycles in -1..6; plus compute_features(burst_method="cycles") on generated signals with the '
-        'thresholds the caller passed (routing + defaults). non-trivial = at least 3 rows and at least one label of '
-        'each value, or a rejected setting')
+        'thresholds the caller passed (routing + defaults, min_n_cycles 0..4). Every returned table is labelled a second '
+        'time by detect_bursts_cycles with one threshold raised (+0.1, to the next double, or to the feature value of one '
+        'of its rows) or min_n_cycles + 1: second labels = rule, and a subset of the first. Settings outside the '
+        'quantifier (thresholds outside [0,1] or NaN, negative min_n_cycles) and the dtype of the label column are '
+        'compared with the model only. non-trivial = at least 3 rows and at least one label of each value, or a '
+        'rejected setting')
+ASSUMPTIONS = ['the statement oracle judges thresholds in [0,1]^4 and integer min_n_cycles >= 0 only (the quantifier); '
+               'error classes for other settings, acceptance of NaN thresholds, the empty label column of a table '
+               'without cycles and the boolean dtype of is_burst are pinned by the model comparison (table stream) '
+               'or recorded in the evidence (pipeline stream: nonbool_label_columns)',
+               'label values are read through bool()']
 DEFAULTS = {'amp_fraction_threshold': 0., 'amp_consistency_threshold': .5,
             'period_consistency_threshold': .5, 'monotonicity_threshold': .8, 'min_n_cycles': 3}
 KEYS = ['amp_fraction_threshold', 'amp_consistency_threshold', 'period_consistency_threshold', 'monotonicity_threshold']
@@ -52,13 +63,14 @@ def cases(rng, tier):
             thr[rng.randrange(4)] = float('nan')
         n = rng.choice([-1, 0, 1, 2, 3, 3, 3, 4, 5, 6])
         nrows = rng.choice([0, 1, 2, 3, 5, 8, 12, 20, 40])
-        pq = rng.choice([0.5, 0.8, 0.95])
+        pq = rng.choice([0.5, 0.75, 0.9])      # probability that a ROW qualifies (all four columns above their threshold)
         rows = []
         for _ in range(nrows):
             row = []
+            fails = set() if rng.random() < pq else set(rng.sample(range(4), rng.choice([1, 1, 2, 4])))
             for k in range(4):
                 t = thr[k] if not math.isnan(thr[k]) else 0.5
-                if rng.random() < pq:
+                if k not in fails:
                     v = rng.choice([math.nextafter(t, 2.0), 1.0, min(1.0, t + 0.2), math.nextafter(t, 2.0), float('inf')]
                                    if rng.random() < 0.1 else [math.nextafter(t, 2.0), 1.0, min(1.0, t + 0.2)])
                 else:
@@ -68,11 +80,47 @@ def cases(rng, tier):
         nkeys = rng.choice([4, 4, 4, 3, 2, 0])
         given = sorted(rng.sample(range(4), nkeys))
         out.append({'kind': 'table', 'thr': _hexrow(thr), 'given': given, 'n': n, 'n_given': rng.random() < 0.8,
-                    'rows': rows, 'index': rng.choice(['default', 'default', 'offset', 'reversed', 'sparse'])})
+                    'rows': rows, 'index': rng.choice(['default', 'default', 'offset', 'reversed', 'sparse']),
+                    'raise': _gen_raise(rng)})
     npipe = 90 if tier == 'quick' else 900
     for _ in range(npipe):
-        out.append(pipeline.gen_case(rng, tier, methods=('cycles',), fek_prob=0.3))
+        c = pipeline.gen_case(rng, tier, methods=('cycles',), fek_prob=0.3)
+        if rng.random() < 0.12:
+            c['thr'] = dict(c['thr'] or {}, min_n_cycles=0)     # 0 is a documented value (every run is long enough)
+        c['raise'] = _gen_raise(rng)
+        out.append(c)
     return out
+
+
+def _gen_raise(rng):
+    """Which setting the second call (on the returned table) raises, and how."""
+    return {'what': rng.choice([0, 1, 2, 3, 0, 1, 2, 3, 'n']), 'how': rng.choice(['+0.1', 'next', 'row', 'row']),
+            'row': rng.randrange(1000)}
+
+
+def _rs(c):
+    """The case's second-call specification (corpus cases and replays written before it existed: min_n_cycles + 1)."""
+    return c.get('raise') or {'what': 'n', 'how': '+0.1', 'row': 0}
+
+
+def _raised(spec, eff, n, rows):
+    """Settings of the second call: one threshold raised inside [0,1] (never lowered), or min_n_cycles + 1."""
+    eff2, n2 = list(eff), n
+    if spec['what'] == 'n':
+        return eff2, n + 1
+    k = spec['what']
+    t = eff[k]
+    if t != t:
+        return eff2, n2
+    t2 = min(1.0, t + 0.1)
+    if spec['how'] == 'next' and t < 1.0:
+        t2 = math.nextafter(t, 2.0)
+    elif spec['how'] == 'row' and rows:
+        v = rows[spec['row'] % len(rows)][k]
+        if t <= v <= 1.0:
+            t2 = v          # exactly the feature value of a row: that row stops qualifying (strict >)
+    eff2[k] = t2
+    return eff2, n2
 
 
 def _kwargs(c):
@@ -106,17 +154,60 @@ def run_impl(c):
         elif ix == 'sparse':
             df.index = np.arange(len(rows)) * 3 + 1
         before = df.copy()
+        kw = _kwargs(c)
         try:
-            res = detect_bursts_cycles(df, **_kwargs(c))
+            res = detect_bursts_cycles(df, **kw)
         except Exception as e:
             return {'err': exc_kind(e)}
-        col = np.asarray(res['is_burst'])
-        if len(col) != len(rows) or any(v is None or (isinstance(v, float) and v != v) for v in col.tolist()):
-            return {'labels': [False] * len(rows), 'features_unchanged': False, 'bad_label_column': True}
-        lab = [bool(x) for x in col]
-        same = all(np.array_equal(np.asarray(res[col]), np.asarray(before[col]), equal_nan=True) for col in before.columns)
-        return {'labels': lab, 'features_unchanged': bool(same)}
-    return pipeline.run_pipe(c)
+        out = _read_labels(res, before)
+        # second call, on the table that was returned, with one setting raised
+        eff, n = _effective(c)
+        eff2, n2 = _raised(_rs(c), eff, n, rows)
+        kw2 = dict(kw)
+        if _rs(c)['what'] == 'n':
+            kw2['min_n_cycles'] = n2
+        else:
+            kw2[KEYS[_rs(c)['what']]] = eff2[_rs(c)['what']]
+        try:
+            res2 = detect_bursts_cycles(res, **kw2)
+            out['second'] = _read_labels(res2, before)
+        except Exception as e:
+            out['second'] = {'err': exc_kind(e)}
+        return out
+    o = pipeline.run_pipe(c)
+    if 'rows' in o:
+        o['second'] = _pipe_second(c)
+    return o
+
+
+def _read_labels(res, before):
+    col = res['is_burst']
+    isbool = bool(getattr(col, 'dtype', None) == np.bool_) or len(col) == 0     # an empty column carries no label
+    col = np.asarray(col)
+    if col.ndim != 1 or len(col) != len(before) or any(v is None or (isinstance(v, float) and v != v) for v in col.tolist()):
+        return {'labels': [False] * len(before), 'features_unchanged': False, 'bad_label_column': True, 'dtype_bool': isbool}
+    same = all(np.array_equal(np.asarray(res[k]), np.asarray(before[k]), equal_nan=True) for k in before.columns)
+    return {'labels': [bool(x) for x in col], 'features_unchanged': bool(same), 'dtype_bool': isbool}
+
+
+def _pipe_second(c):
+    """The analysis once more (to hold the returned DataFrame), then detect_bursts_cycles on that table with one
+    setting raised. Everything the oracle needs is taken from THIS table."""
+    from bycycle.burst import detect_bursts_cycles
+    from harness import gen
+    try:
+        df = pipeline.call_compute_features(gen.unhexlist(c['sig']), c, return_samples=True)
+        before = df[COLS].copy()
+        first = _read_labels(df, before)
+        rows = [[float(before[k].iloc[i]) for k in COLS] for i in range(len(before))]
+        rs = pipeline.resolved(c)
+        eff2, n2 = _raised(_rs(c), [float(t) for t in rs['thr']], rs['n'], rows)
+        kw2 = {KEYS[k]: eff2[k] for k in range(4)}
+        kw2['min_n_cycles'] = n2
+        second = _read_labels(detect_bursts_cycles(df, **kw2), before)
+    except Exception as e:
+        return {'err': exc_kind(e), 'errmsg': str(e)[:200]}
+    return {'rows': [_hexrow(r) for r in rows], 'first': first, 'thr2': _hexrow(eff2), 'n2': n2, 'second': second}
 
 
 def _spec_labels(eff, n, rows):
@@ -138,35 +229,61 @@ def _spec_labels(eff, n, rows):
     return out
 
 
+def _judge(lab, eff, n, rows, what):
+    """One labelled table against the statement: one label per cycle, labels = threshold-and-run rule."""
+    if lab.get('bad_label_column'):
+        return '%s: is_burst column is not one label per cycle' % what
+    want = _spec_labels(eff, n, rows)
+    if lab['labels'] != want:
+        return '%s: labels differ from threshold-and-run rule: got %s want %s' % (what, lab['labels'], want)
+    if not lab['features_unchanged']:
+        return '%s: feature columns changed by labelling' % what
+    return None
+
+
+def _judge_second(first, second, eff2, n2, rows, desc):
+    """Second call on the returned table with raised settings: the rule again, and no label added."""
+    if 'err' in second:
+        return 'labelling the returned table again (%s) raised %s' % (desc, second['err'])
+    msg = _judge(second, eff2, n2, rows, 'second call on the returned table (%s)' % desc)
+    if msg:
+        return msg
+    if any(b and not a for a, b in zip(first['labels'], second['labels'])):
+        return 'raising a setting on a fixed table (%s) added a burst label: %s -> %s' % (desc, first['labels'], second['labels'])
+    return None
+
+
 def oracle(c, o):
     if c['kind'] != 'table':
-        return pipeline.oracle_labels_cycles(c, o)
+        msg = pipeline.oracle_labels_cycles(c, o)
+        if msg or 'rows' not in o or 'second' not in o:
+            return msg
+        s = o['second']
+        if 'err' in s:
+            return 'analysis repeated to hold the returned table raised %s (%s)' % (s['err'], s.get('errmsg', ''))
+        rs = pipeline.resolved(c)
+        rows = [[_unhex(h) for h in r] for r in s['rows']]
+        msg = _judge(s['first'], [float(t) for t in rs['thr']], rs['n'], rows, 'returned table')
+        if msg:
+            return msg
+        return _judge_second(s['first'], s['second'], [_unhex(h) for h in s['thr2']], s['n2'], rows,
+                             'thresholds %s, min_n_cycles %s' % ([_unhex(h) for h in s['thr2']], s['n2']))
     eff, n = _effective(c)
     rows = [[_unhex(h) for h in r] for r in c['rows']]
-    bad_thr = any((t < 0) or (t > 1) for t in eff)
-    if bad_thr:
-        return None if o.get('err') == 'Value' else 'threshold outside [0,1] not rejected with ValueError: %s' % o
+    if not all(0 <= t <= 1 for t in eff) or n < 0:
+        return None          # outside the quantifier ([0,1]^4, min_n_cycles >= 0): model comparison only
     if not rows:
-        return None if o.get('labels') == [] else 'empty table not labelled by an empty column: %s' % o
-    if n < 0:
-        return None if o.get('err') == 'Value' else 'negative min_n_cycles not rejected: %s' % o
+        # a table without cycles: nothing to label; only a non-empty label column would contradict the statement
+        return 'labels for a table without cycles: %s' % o if o.get('labels') else None
     if 'err' in o:
         return 'raised %s on a valid table' % o['err']
-    want = _spec_labels(eff, n, rows)
-    if o['labels'] != want:
-        return 'labels differ from threshold-and-run rule: got %s want %s' % (o['labels'], want)
-    if o.get('bad_label_column'):
-        return 'is_burst column is not one boolean per row'
-    if not o['features_unchanged']:
-        return 'feature columns changed by labelling'
-    # monotonicity probe: raising each threshold by one step / n by one never adds a label
-    for k in range(4):
-        eff2 = list(eff)
-        eff2[k] = min(1.0, eff[k] + 0.1)
-        w2 = _spec_labels(eff2, n, rows)
-        if any(b and not a for a, b in zip(want, w2)):
-            return 'monotonicity (oracle self-check)'
-    return None
+    msg = _judge(o, eff, n, rows, 'first call')
+    if msg:
+        return msg
+    if 'second' not in o:
+        return None
+    eff2, n2 = _raised(_rs(c), eff, n, rows)
+    return _judge_second(o, o['second'], eff2, n2, rows, 'thresholds %s, min_n_cycles %s' % (eff2, n2))
 
 
 def nontrivial(c, o):
@@ -177,8 +294,28 @@ def nontrivial(c, o):
     return len(o['labels']) >= 3 and any(o['labels']) and not all(o['labels'])
 
 
+_STATS = {'second_calls': 0, 'second_calls_removing_a_label': 0, 'nonbool_label_columns': 0, 'pipe_min_n_cycles_0': 0}
+
+
 def kind_of(c, o):
+    # called once per case by the evidence writer: also collects the statistics of extra_evidence
+    if c['kind'] == 'table':
+        labs = [o, o.get('second')] if 'labels' in o else []
+    else:
+        s = o.get('second') or {}
+        labs = [s.get('first'), s.get('second')] if 'first' in s else []
+        if (c.get('thr') or {}).get('min_n_cycles') == 0:
+            _STATS['pipe_min_n_cycles_0'] += 1
+    if len(labs) == 2 and labs[1] and 'labels' in labs[1]:
+        _STATS['second_calls'] += 1
+        if sum(labs[1]['labels']) < sum(labs[0]['labels']):
+            _STATS['second_calls_removing_a_label'] += 1
+    _STATS['nonbool_label_columns'] += sum(1 for l in labs if l and l.get('dtype_bool') is False)
     return c['kind'] + ('/err' if 'err' in o else '') if c['kind'] == 'table' else pipeline.kind_of(c, o)
+
+
+def extra_evidence():
+    return {'c06_statistics': dict(_STATS)}
 
 
 def coq_case(c, o):
@@ -186,10 +323,12 @@ def coq_case(c, o):
         return pipeline.coq_case(c, o)
     eff, n = _effective(c)
     rows = [[_unhex(h) for h in r] for r in c['rows']]
-    inp = '((%s), %s, %s)' % (', '.join(coqio.fl(t) for t in eff), coqio.Z(n) + '%Z',
-                              coqio.lst(['(%s)' % ', '.join(coqio.fl(v) for v in r) for r in rows]) if rows
-                              else '(@nil (float*float*float*float))')
-    return inp, res_labels(o)
+    eff2, n2 = _raised(_rs(c), eff, n, rows)
+    inp = '((%s), %s, ((%s), %s), %s)' % (', '.join(coqio.fl(t) for t in eff), coqio.Z(n) + '%Z',
+                                          ', '.join(coqio.fl(t) for t in eff2), coqio.Z(n2) + '%Z',
+                                          coqio.lst(['(%s)' % ', '.join(coqio.fl(v) for v in r) for r in rows]) if rows
+                                          else '(@nil (float*float*float*float))')
+    return inp, '(%s, %s)' % (res_labels(o), '(Some %s)' % res_labels(o['second']) if 'second' in o else 'None')
 
 
 ERRMAP = {'Value': 'EValue', 'Index': 'EIndex', 'Key': 'EKey', 'Type': 'EType'}
@@ -198,7 +337,10 @@ ERRMAP = {'Value': 'EValue', 'Index': 'EIndex', 'Key': 'EKey', 'Type': 'EType'}
 def res_labels(o):
     if 'err' in o:
         return '(Err %s)' % ERRMAP.get(o['err'], 'EOther')
-    return '(Ok %s)' % coqio.blist(o['labels'])
+    # (dtype is bool, values); a column that is not one label per cycle cannot equal any model output
+    if o.get('bad_label_column'):
+        return '(Err EOther)'
+    return '(Ok (%s, %s))' % (coqio.B(o.get('dtype_bool', True)), coqio.barr(len(o['labels']), coqio.mask_of(o['labels'])))
 
 
 def shrink(c):
